@@ -65,6 +65,9 @@ class Vec:
         self.index = index        # for series: a Vec of index labels
         self.tz = tz
         self.shape2 = None
+        # a *lazy boolean selection* x[m] with an undecided mask m: the full-length elements are kept and `sel_mask` holds
+        # the formulas; only element-wise use and `target[m] = x[m]` (same m) are meaningful
+        self.sel_mask = None
 
     # ---- construction ----
     @classmethod
@@ -88,6 +91,12 @@ class Vec:
 
     # ---- access ----
     def __len__(self):
+        if self.sel_mask is not None:
+            from .repo import AnalysisError
+            raise AnalysisError('length of a data-dependent boolean selection (symbolic)')
+        return len(self.idx)
+
+    def full_len(self):
         return len(self.idx)
 
     def els(self):
